@@ -197,7 +197,12 @@ class G:
         if self.pr("tuple_cpart", 0.05):
             return "(" + ", ".join(self.ch(["i32", "String", "u8"]) for _ in range(self.r.randrange(1, 4))) + ")"
         if self.pr("generic_cpart", 0.1):
-            return self.ch(["G<i32>", "G<T>", "H::<'x, u8>", "K<'x, 'y>", "L<'a>", "m::G<Vec<u8>>", "K<'x, 'x>", "K<'a, 'x>", "N<'y, 'x, 'y, T>"])
+            if self.pr("x", 0.5):
+                # any layout of lifetimes (own / counterpart-only, repeated, in any order) followed by type arguments
+                lts = [self.ch(["'a", "'b", "'x", "'y"]) for _ in range(self.r.randrange(0, 4))]
+                tys = [self.ch(["T", "i32", "Vec<u8>", "U"]) for _ in range(self.r.randrange(0 if lts else 1, 3))]
+                return self.ch(["K", "N", "m::G"]) + self.ch(["<", "<", "::<"]) + ", ".join(lts + tys) + ">"
+            return self.ch(["G<i32>", "G<T>", "H::<'x, u8>", "K<'x, 'y>", "L<'a>", "m::G<Vec<u8>>", "K<'x, 'x>", "K<'a, 'x>", "N<'y, 'x, 'y, T>", "K<'x, 'a>", "N<'x, 'a, 'y, T>", "K<'x, 'b>", "N<'b, 'x, 'a, T>"])
         return self.ch(["A", "B", "C", "m::D"] if not self.pr("odd_cpart", 0.05) else CPARTS)
 
     def trait_params(self, name, is_enum):
@@ -603,16 +608,24 @@ class G:
                     fa.append(self.member_map_instr(cparts, target_named=True, nfields=nf))
             fields.append(Field(NAMES[k] if shape == "named" else None, self.ch(["i32", "String", "Inner", "m::Inner", "&'a str"]), fa))
         ghost_only = None
+        ghost_only_more = []
         if used_prefixes and self.pr("ghost_only_child", 0.0):
             base = self.ch(used_prefixes)
             ghost_only = base + [self.ch(["gm", "gm", "5", "pp"])]
             if ghost_only in used_prefixes:
                 ghost_only = None
+            else:
+                # further nested structs that exist only through ghost entries (their relative order is the written one)
+                for seg in ["gn", "go", "6"][: r.randrange(0, 3)]:
+                    q = self.ch(used_prefixes) + [seg]
+                    if q not in used_prefixes and q != ghost_only and q not in ghost_only_more:
+                        ghost_only_more.append(q)
         if used_prefixes and not self.pr("drop_child_parents", 0.05):
             r.shuffle(used_prefixes) if self.pr("shuffle_cp", 0.5) else None
             keep = [pth for pth in used_prefixes if not self.pr("drop_cp_entry", 0.03)]
             if ghost_only:
                 keep.append(ghost_only)
+                keep.extend(ghost_only_more)
             ded = (self.ch(cparts) + "| ") if self.pr("dedicated", 0.25) else ""
             attrs.append(Instr("child_parents", ded + ", ".join(".".join(pth) + ": " + self.ch(["P", "m::Q", "R<T>"]) + (self.ch(["", "", " as {}", " as ()"]) if not self.pr("cp_unit", 0.0) else " as Unit") for pth in keep), tag=("cp", None)))
             if self.pr("second_cp", 0.3):
@@ -625,7 +638,8 @@ class G:
                     attrs.insert(len(attrs) - 1, cp2)
         if ghost_only:
             # a nested struct that no member is flattened into: it exists only through struct-level ghost entries
-            attrs.append(Instr(self.ch(["ghosts", "ghosts", "ghosts_owned"]), ".".join(ghost_only) + "@" + self.ch(["gx", "0"]) + ": { 9 }" + (", " + ".".join(ghost_only) + "@gy: { 10 }" if self.pr("x", 0.3) else ""), tag=("ghosts", None)))
+            attrs.append(Instr(self.ch(["ghosts", "ghosts", "ghosts_owned"]), ".".join(ghost_only) + "@" + self.ch(["gx", "0"]) + ": { 9 }" + (", " + ".".join(ghost_only) + "@gy: { 10 }" if self.pr("x", 0.3) else "")
+                               + "".join(", " + ".".join(q) + "@gz: { 11 }" for q in ghost_only_more), tag=("ghosts", None)))
         elif self.pr("ghosts", 0.15) and used_prefixes:
             pth = self.ch(used_prefixes)
             ded = (self.ch(cparts) + "| ") if self.pr("child_ghosts_ded", 0.2) else ""
@@ -773,8 +787,25 @@ def gen_items(profile, seed, n):
         kind = g.ch(kinds)
         it = {"struct": g.struct, "enum": g.enum, "tree": g.tree, "trait_repeat": g.trait_repeat_item}[kind]()
         it.meta["id"] = f"{profile}-{seed}-{k}"
+        respell_dedications(g, it)
         out.append(it)
     return out
+
+
+def respell_dedications(g, it):
+    """now and then a dedication `Type<..>| ...` names the generic counterpart with the other turbofish spelling
+    (`Type::<..>` / `Type<..>`): as written the two are different types for the derive, under both back-ends"""
+    if g.r.random() >= 0.2:
+        return
+    hosts = [it] + list(it.fields) + list(it.variants) + [f for v in it.variants for f in v.fields]
+    for h in hosts:
+        for a in h.attrs:
+            if a.args is None or (a.tag and a.tag[0] == "trait"):
+                continue
+            m = re.match(r"^([A-Za-z_:]+)(::)?(<[^|]*>)\| ", a.args)
+            if m and g.r.random() < 0.5:
+                head = m.group(1) + ("" if m.group(2) else "::") + m.group(3)
+                a.args = head + a.args[m.end() - 2:]
 
 
 # ---------------------------------------------------------------------------------------------
